@@ -185,9 +185,10 @@ func (sp *specT) build(req *dns.Msg, base int64) *dns.Msg {
 
 // upstream is the scripted authority behind the cache.
 type upstream struct {
-	script map[string]*specT
-	calls  map[string]int
-	base   int64
+	script   map[string]*specT
+	calls    map[string]int // reached the upstream
+	answered map[string]int // ... and the upstream answered
+	base     int64
 }
 
 func (u *upstream) Name() string { return "upstream" }
@@ -204,6 +205,7 @@ func (u *upstream) ServeDNS(ctx context.Context, ch *middleware.Chain) {
 		ch.Cancel() // silent: nothing is written, nothing is admitted
 		return
 	}
+	u.answered[tok]++
 	if sp.lease != nil {
 		if meta := middleware.ResponseMetaFrom(ctx); meta != nil {
 			meta.BoundCutFor(time.Now().Add(time.Duration(*sp.lease)*time.Second), 7)
@@ -269,7 +271,7 @@ func histNew(f []string) vlib.Res {
 	h := &histT{ecsCap: capS, known: map[slotKey]*cache.CacheEntry{}, led: map[slotKey]*orec{}, gens: map[slotKey]int{},
 		captured: map[string]*cache.CacheEntry{}, capGen: map[string]int{}, capHad: map[string]bool{}, cuts: map[string]*orec{},
 		origins: map[string]*orec{}, shown: map[string]int64{}}
-	h.up = &upstream{script: map[string]*specT{}, calls: map[string]int{}}
+	h.up = &upstream{script: map[string]*specT{}, calls: map[string]int{}, answered: map[string]int{}}
 	reg := middleware.NewRegistry()
 	reg.Register("edns", func(c *config.Config) middleware.Handler { return edns.New(c) })
 	reg.Register("cache", func(c *config.Config) middleware.Handler { h.c = cache.New(c); return h.c })
@@ -761,6 +763,7 @@ func (h *histT) setScript(up string) map[string]*specT {
 	}
 	h.up.script = script
 	h.up.calls = map[string]int{}
+	h.up.answered = map[string]int{}
 	return script
 }
 
@@ -773,7 +776,7 @@ func (h *histT) query(route, tok string, ecs, do bool, up string) vlib.Res {
 	f0, c0, k0 := cache.VerifC04Counters()
 	reply := h.run(route, mkReq(tok, ecs, do))
 	f1, c1, k1 := cache.VerifC04Counters()
-	calls := h.up.calls
+	calls := h.up.answered
 	chs := h.changes()
 	var recs []recTok
 	head := "miss"
